@@ -255,9 +255,12 @@ impl FmtAttribute {
                     .args
                     .iter()
                     .find_map(|a| (a.alias()?.unraw() == name).then_some(&a.expr))
-                    .map_or(Some(name), |expr| expr.ident().map(ToString::to_string))?,
+                    .map_or(Some(name), |expr| {
+                        expr.ident().map(|i| i.unraw().to_string())
+                    })?,
+                // (`r#type` as an argument is the field `type`.)
                 Parameter::Positional(i) => {
-                    self.args.iter().nth(i)?.expr.ident()?.to_string()
+                    self.args.iter().nth(i)?.expr.ident()?.unraw().to_string()
                 }
             };
 
